@@ -135,6 +135,33 @@ func OpenPathOneHandle(path string, opts *redka.Options) (*Exec, error) {
 	return &Exec{DB: db, Raw: raw, Path: path, rel: map[int64]int64{}}, nil
 }
 
+// OpenPathTwoHandles connects with redka.OpenDB on two caller-opened handles: a read-write one and
+// one opened with mode=ro (the file must exist).
+func OpenPathTwoHandles(file string) (*Exec, error) {
+	rw, err := sql.Open("sqlite3", "file:"+file+"?_foreign_keys=on&_busy_timeout=5000")
+	if err != nil {
+		return nil, err
+	}
+	ro, err := sql.Open("sqlite3", "file:"+file+"?mode=ro&_busy_timeout=5000")
+	if err != nil {
+		rw.Close()
+		return nil, err
+	}
+	db, err := redka.OpenDB(rw, ro, nil)
+	if err != nil {
+		rw.Close()
+		ro.Close()
+		return nil, err
+	}
+	raw, err := sql.Open("sqlite3", file)
+	if err != nil {
+		db.Close()
+		return nil, err
+	}
+	raw.SetMaxOpenConns(1)
+	return &Exec{DB: db, Raw: raw, Path: file, rel: map[int64]int64{}}, nil
+}
+
 func (x *Exec) Close() {
 	x.Raw.Close()
 	x.DB.Close()
